@@ -576,6 +576,11 @@ def _next_period_arith(handler, again):
             raise _NA()
         if isinstance(e, ast.Subscript) and isinstance(e.value, ast.Name) and e.value.id in ("end_args", "completed_end_args") and const_value(e.slice) in ("year", "month"):
             return env["@" + const_value(e.slice)]
+        if isinstance(e, ast.Attribute) and isinstance(e.value, ast.Name) and e.attr in ("year", "month") and "start" in e.value.id:
+            # the START's year / month: a different date than the completed end (the end may name its own month)
+            return env["@start_" + e.attr]
+        if isinstance(e, ast.Subscript) and isinstance(e.value, ast.Name) and "start" in e.value.id and const_value(e.slice) in ("year", "month"):
+            return env["@start_" + const_value(e.slice)]
         if isinstance(e, ast.BinOp) and isinstance(e.op, (ast.Add, ast.Sub, ast.Mult, ast.FloorDiv, ast.Mod)):
             a, b = ev(e.left, env), ev(e.right, env)
             return {ast.Add: a + b, ast.Sub: a - b, ast.Mult: a * b}.get(type(e.op)) if not isinstance(e.op, (ast.FloorDiv, ast.Mod)) else (a // b if isinstance(e.op, ast.FloorDiv) else a % b)
@@ -588,7 +593,7 @@ def _next_period_arith(handler, again):
     try:
         for m0 in range(1, 13):
             for step in (1, 12):
-                env = {"@year": 2019, "@month": m0, "months": step}
+                env = {"@year": 2019, "@month": m0, "months": step, "@start_year": 2018, "@start_month": m0 % 12 + 1}
                 for a_ in assigns:
                     t_ = a_.targets[0]
                     if isinstance(t_, ast.Name) and t_.id == "months":
@@ -1029,6 +1034,8 @@ def rule_regexfill(ctx):
 
 
 def run(ctx):
+    from ..calendar_rule import rule_leap
+    ctx.attempt(rule_leap, ctx, "C02.calendar", ['typhon/files/fileset.py', 'typhon/files/handlers/common.py', 'typhon/utils/timeutils.py'])
     for r in (rule_table, rule_year2, rule_doy_subsec, rule_endfill, rule_default_end, rule_merge, rule_reject, rule_memo, rule_regexfill):
         ctx.attempt(r, ctx)
     ctx.attempt(rule_anchor, ctx, "C01.anchor")
